@@ -74,6 +74,25 @@ fn is_square<F: Field>(v: &F, half: &BigUint) -> bool {
     v.is_zero() || ref_pow(v, half).is_one()
 }
 
+/// inverse of a modulo m (extended Euclid on signed big integers), None when gcd != 1
+fn modinv(a: &BigUint, m: &BigUint) -> Option<BigUint> {
+    use num_bigint::BigInt as I;
+    let (mut r0, mut r1) = (I::from(m.clone()), I::from(a.clone()));
+    let (mut t0, mut t1) = (I::from(0), I::from(1));
+    while r1 != I::from(0) {
+        let q = &r0 / &r1;
+        let r2 = &r0 - &q * &r1;
+        r0 = std::mem::replace(&mut r1, r2);
+        let t2 = &t0 - &q * &t1;
+        t0 = std::mem::replace(&mut t1, t2);
+    }
+    if r0 != I::from(1) {
+        return None;
+    }
+    let mi = I::from(m.clone());
+    (((t0 % &mi) + &mi) % &mi).to_biguint()
+}
+
 fn small_prime_factors(h: &BigUint) -> Vec<u64> {
     let mut out = Vec::new();
     let mut n = h.clone();
@@ -327,7 +346,7 @@ where
         // x without a root / points from small x
         let mut raw: Vec<Sw<P::BaseField>> = Vec::new();
         for xi in 0u64..200 {
-            if cx.noroot.len() >= 3 && raw.len() >= 2 {
+            if cx.noroot.len() >= 3 && raw.len() >= 4 {
                 break;
             }
             let x = P::BaseField::from(xi);
@@ -335,7 +354,7 @@ where
                 if cx.noroot.len() < 3 {
                     cx.noroot.push(x);
                 }
-            } else if raw.len() < 2 {
+            } else if raw.len() < 4 {
                 if let Some(q) = SwAffine::<P>::get_point_from_x_unchecked(x, xi % 2 == 0) {
                     let q = sw_from_affine::<P>(&q);
                     if Self::on_curve(&q) {
@@ -346,6 +365,8 @@ where
         }
         if !h.is_one() {
             let primes = small_prime_factors(&h);
+            // order-l points obtained from the different raw points, per prime l
+            let mut by_l: std::collections::BTreeMap<u64, Vec<Sw<P::BaseField>>> = Default::default();
             for q in &raw {
                 if !cx.insub(q) {
                     cx.outside.push((*q, "d.from-small-x"));
@@ -376,12 +397,48 @@ where
                         if s != Sw::Inf && !cx.insub(&s) {
                             cx.outside.push((s, "d.small-order"));
                             cx.outside.push((sw_add(&P::COEFF_A, &s, &cx.pool[2]), "d.subgroup+small-order"));
+                            by_l.entry(*l).or_default().push(s);
                         }
+                    }
+                }
+            }
+            // when the l-torsion is two-dimensional, a subgroup test built on an endomorphism can be wrong on a single
+            // eigenline only: with two independent order-l points T1, T2 every line <a T1 + b T2> gets a representative
+            for (l, ts) in &by_l {
+                if ts.len() < 2 || *l > 64 {
+                    continue;
+                }
+                let t1 = ts[0];
+                let a = P::COEFF_A;
+                let mut multiples = Vec::new();
+                let mut acc = Sw::Inf;
+                for _ in 0..*l {
+                    multiples.push(acc);
+                    acc = sw_add(&a, &acc, &t1);
+                }
+                // the first of the other order-l points that is not a multiple of T1 (none: the l-torsion seen is cyclic)
+                let t2 = match ts[1..].iter().find(|t| !multiples.contains(t)) {
+                    Some(t) => *t,
+                    None => continue,
+                };
+                for b in 0..*l {
+                    // T2 + b T1 (the line through T1 itself is already present as "d.small-order")
+                    let s = sw_add(&a, &t2, &multiples[b as usize]);
+                    if s != Sw::Inf && !cx.insub(&s) {
+                        cx.outside.push((s, "d.small-order-line"));
+                        cx.outside.push((sw_add(&a, &s, &cx.pool[3]), "d.subgroup+small-order-line"));
                     }
                 }
             }
             for (q, _) in &cx.outside {
                 assert!(Self::on_curve(q));
+            }
+            if std::env::var_os("VH_DEBUG_SPECIAL").is_some() {
+                let mut counts: std::collections::BTreeMap<&str, usize> = Default::default();
+                for (_, l) in &cx.outside {
+                    *counts.entry(*l).or_default() += 1;
+                }
+                eprintln!("outside[{}]: primes {:?} by_l {:?} {:?}", std::any::type_name::<P>(), primes, by_l.iter().map(|(l, v)| (*l, v.len())).collect::<Vec<_>>(), counts);
             }
         }
         if toy {
@@ -1269,6 +1326,29 @@ where
                 }
             }
         }
+        // r-th roots of elements "close to one" of the subfield of half degree (r does not divide its group order, so
+        // the root exists and is unique there): f = h^(1/r mod (q^(k/2) - 1)) has f^r = h != 1
+        {
+            let q = tw.prime.p.clone();
+            let sub_order = q.pow((d / 2) as u32) - 1u32;
+            if let Some(inv) = modinv(&(&r % &sub_order), &sub_order) {
+                for j in 0..d / 2 {
+                    for m in [1u64, 2] {
+                        let mut cs = vec![<E::TargetField as Field>::BasePrimeField::zero(); d];
+                        cs[0] = <E::TargetField as Field>::BasePrimeField::one();
+                        cs[j] += <E::TargetField as Field>::BasePrimeField::from(m);
+                        let hh = E::TargetField::from_base_prime_field_elems(cs).unwrap();
+                        if hh.to_o() == E::TargetField::one().to_o() || hh.is_zero() {
+                            continue;
+                        }
+                        let f = ref_pow(&hh, &inv);
+                        if ref_pow(&f, &r).to_o() == hh.to_o() {
+                            small.push((0, f));
+                        }
+                    }
+                }
+            }
+        }
         GtCtx { tw, r, pool, lay, size, small }
     }
 }
@@ -1324,7 +1404,9 @@ where
         },
         _ => (plausible(&cx.lay, cx.size, &p, cx.tw.prime.n, t), "h.plausible", None),
     };
-    let in_gt = elem.map(|f| ref_pow(&f, &cx.r).is_one());
+    // decided on the oracle representation (coefficient by coefficient), not through the field's own `is_one`
+    let one_o = E::TargetField::one().to_o();
+    let in_gt = elem.map(|f| ref_pow(&f, &cx.r).to_o() == one_o);
     let must_err = in_gt == Some(false) || label.starts_with("f.");
     if label != "g.truncated" {
         let pad = t.idx(17);
@@ -1347,7 +1429,7 @@ where
                     if val == Validate::Yes {
                         ensure!(f.0.canonical(), format!("coordinates-not-reduced.{}", mn), "non-reduced coefficients accepted");
                         ensure!(!must_err, format!("accepted.{}.{}", label, mn), "{}: class {} accepted: {:?}", mn, label, f.0.to_o());
-                        ensure!(ref_pow(&f.0, &cx.r).is_one(), format!("not-in-target-group.{}", mn), "{}: accepted element with f^r != 1: {:?}", mn, f.0.to_o());
+                        ensure!(ref_pow(&f.0, &cx.r).to_o() == one_o, format!("not-in-target-group.{}", mn), "{}: accepted element with f^r != 1: {:?}", mn, f.0.to_o());
                     }
                     if let (Some(e), Some(true)) = (elem, in_gt) {
                         ensure!(f.0 == e, format!("valid.decodes-differently.{}", mn), "valid encoding decodes to a different element");
@@ -1777,7 +1859,7 @@ fn relations(tier: Tier) -> Vec<Rel> {
 fn main() {
     vh_core::engine::main(PropSpec {
         id: "C10",
-        rule: "Byte strings are built by class and fed to deserialize_with_mode or, for about half of the strings (a hash of the bytes decides), to the convenience method documented as its synonym (deserialize_compressed / _unchecked / deserialize_uncompressed / _unchecked) (Affine 3/4, Projective 1/4) in one compression mode and both validation modes, behind a counting reader, followed by 0..16 random padding bytes: (a) valid encodings of subgroup points; (b) 1..3 bit flips, arbitrary flag patterns (generic 2-bit SW / 1-bit TE flags, 3-flag zcash header of curves/bls12_381); (c) compressed x (resp. y) without square root by the harness' Euler criterion; (d) on-curve points outside the subgroup (from small/edge x, r*R, points of small prime order, subgroup point + torsion point; TE: orders 2 and 4), verified by reference multiplication; (e) off-curve (x,y) uncompressed: (t^2 x, t^3 y) with t in the prime subfield, y+1, x+1, random, verified with the harness' curve equation; (f) coordinates + p or with an unused high bit set; (g) truncation to a shorter length; (h) uniform / plausible (all coordinates reduced) / constant bytes. Same for 14 prime fields, 6 towers and PairingOutput of 10 pairings (-g, g*c with c in F_p, g*z and z for z of small prime order l < 200 in the target field's multiplicative group, arbitrary elements, 0). Toy curves additionally: every 2-byte (1-byte) compressed string and every (x byte, y byte, 5 values of the flag byte) uncompressed string exhaustively, with the expectation derived from the harness' own decoding and point table. Vec<Affine> with hostile length prefixes runs in a child process under an allocation guard. Containers whose element validation goes through Projective::batch_check / Projective::check (batch/*: Vec<Projective>, [Projective;3], Vec<(Projective,Affine)>, Vec<Affine> of 1..40 (thorough 120) elements on 4 SW and 3 TE curves, framed by the harness from element encodings: subgroup points, identities and at most one invalid element - outside the subgroup incl. the order-2 point with x = 0, off-curve, without root - at a random position) must be rejected with Validate::Yes exactly when an invalid element is present and otherwise decode element-wise to the encoded points. The curve lists include the SWU-isogenous helper curves of bls12_381 / bls12_377 (WBConfig::IsogenousCurve) and test-curves' secp256k1 and ed_on_bls12_381. Oracles: no panic; bytes consumed <= serialized_size; Validate::Yes and Ok(P) => coordinates reduced, curve equation holds as evaluated by vh_core::curve, r*P = O by double-and-add over double_in_place/+= (toy: affine oracle law); classes (c)-(f) must be Err with Validate::Yes; class (a) must be Ok with the same point; PairingOutput: f^r = 1 by square-and-multiply. Non-trivial: class other than (a); distinct = distinct decoded choice sequences.",
+        rule: "Byte strings are built by class and fed to deserialize_with_mode or, for about half of the strings (a hash of the bytes decides), to the convenience method documented as its synonym (deserialize_compressed / _unchecked / deserialize_uncompressed / _unchecked) (Affine 3/4, Projective 1/4) in one compression mode and both validation modes, behind a counting reader, followed by 0..16 random padding bytes: (a) valid encodings of subgroup points; (b) 1..3 bit flips, arbitrary flag patterns (generic 2-bit SW / 1-bit TE flags, 3-flag zcash header of curves/bls12_381); (c) compressed x (resp. y) without square root by the harness' Euler criterion; (d) on-curve points outside the subgroup (from small/edge x, r*R, points of small prime order (for l <= 64 with two-dimensional l-torsion one point on every line of E[l]), subgroup point + torsion point; TE: orders 2 and 4), verified by reference multiplication; (e) off-curve (x,y) uncompressed: (t^2 x, t^3 y) with t in the prime subfield, y+1, x+1, random, verified with the harness' curve equation; (f) coordinates + p or with an unused high bit set; (g) truncation to a shorter length; (h) uniform / plausible (all coordinates reduced) / constant bytes. Same for 14 prime fields, 6 towers and PairingOutput of 10 pairings (-g, g*c with c in F_p, g*z and z for z of small prime order l < 200 in the target field's multiplicative group or an r-th root of an element 1 + m*e_j of the half-degree subfield, arbitrary elements, 0). Toy curves additionally: every 2-byte (1-byte) compressed string and every (x byte, y byte, 5 values of the flag byte) uncompressed string exhaustively, with the expectation derived from the harness' own decoding and point table. Vec<Affine> with hostile length prefixes runs in a child process under an allocation guard. Containers whose element validation goes through Projective::batch_check / Projective::check (batch/*: Vec<Projective>, [Projective;3], Vec<(Projective,Affine)>, Vec<Affine> of 1..40 (thorough 120) elements on 4 SW and 3 TE curves, framed by the harness from element encodings: subgroup points, identities and at most one invalid element - outside the subgroup incl. the order-2 point with x = 0, off-curve, without root - at a random position) must be rejected with Validate::Yes exactly when an invalid element is present and otherwise decode element-wise to the encoded points. The curve lists include the SWU-isogenous helper curves of bls12_381 / bls12_377 (WBConfig::IsogenousCurve) and test-curves' secp256k1 and ed_on_bls12_381. Oracles: no panic; bytes consumed <= serialized_size; Validate::Yes and Ok(P) => coordinates reduced, curve equation holds as evaluated by vh_core::curve, r*P = O by double-and-add over double_in_place/+= (toy: affine oracle law); classes (c)-(f) must be Err with Validate::Yes; class (a) must be Ok with the same point; PairingOutput: f^r = 1 by square-and-multiply. Non-trivial: class other than (a); distinct = distinct decoded choice sequences.",
         assumptions: &[
             "hostile encodings of (c)-(e) are produced with arkworks' own serializer from unchecked points (C09 checks the serializer); (f) and flag mutations use the harness' description of the byte layout (size.layout fails if it disagrees with serialized_size)",
             "Validate::No carries no validity requirement (only no panic / bounded read); truncated inputs carry no Err requirement beyond the generic oracle",
